@@ -30,6 +30,7 @@ META['explanation'] += ' ' + "R10: media type parser evaluated on case patterns.
 META['explanation'] += ' ' + 'R12: quoted components evaluated through the real compose and _parse (quoted and unquoted spelling, base64 with the real codec). R13: the JSON valued fields write every member they hold, false and zero included (evaluated composer). R14: no parsed sequence rebuilt from a mapping keyed by its items (shared with C10.R15).'
 
 META['explanation'] += ' ' + 'R8 also: a term of another mechanism is declined with InvalidType whatever its length and qualifier.'
+META['explanation'] += ' ' + 'R15: every parse_string_array call of the header / policy record modules passes skip_empty=True (keyword dictionaries read).'
 HERE = os.path.dirname(os.path.dirname(os.path.abspath(__file__)))
 
 
